@@ -116,11 +116,14 @@ pub fn grid(args: &[String]) {
 pub fn record(args: &[String]) {
     let seed = arg_u64(args, "--seed", 1);
     let chains = arg_u64(args, "--chains", 6);
-    let steps = arg_u64(args, "--steps", 400) as usize;
+    let steps_short = arg_u64(args, "--steps", 400) as usize;
+    // the first chains get long histories (thousands of updates: weights 1/n far below any fixed cut-off)
+    let steps_long = arg_u64(args, "--long-steps", steps_short as u64) as usize;
     let mut out = NdjsonOut::create(arg(args, "--out").unwrap());
     let mut s = seed;
     let mut moved = 0u64;
     for c in 0..chains {
+        let steps = if c < 3 { steps_long } else { steps_short };
         let np = 1 + (splitmix(&mut s) % 4) as usize + if c == 1 { 4 } else { 0 };
         let stick = [2u64, 5, 20, 1][(c % 4) as usize]; // how often the state stays (rejections)
         let x0: Vec<i64> = (0..np).map(|_| (splitmix(&mut s) % 8) as i64).collect();
@@ -162,7 +165,7 @@ pub fn record(args: &[String]) {
         out.push(&json!({"e": "mnew", "C": nc, "P": np}));
         let mut m = MultiChainTracker::new(nc, np);
         let mut rows: Vec<Vec<i64>> = vec![vec![0; np]; nc];
-        for _ in 0..steps.min(300) {
+        for _ in 0..steps_short.min(300) {
             for r in rows.iter_mut() {
                 if splitmix(&mut s) % 3 == 0 {
                     r[0] = (splitmix(&mut s) % 4) as i64;
